@@ -7,7 +7,7 @@ import CSD.Lemmas.PFCMeta
 import CSD.Lemmas.HashBlocks
 import CSD.Lemmas.HashRP
 import CSD.Lemmas.HashRPF
-import CSD.Lemmas.FM8
+import CSD.Lemmas.FM11
 
 namespace CSD.Props.C02
 open CSD CSD.PFC
@@ -137,6 +137,11 @@ theorem fmindex_hypotheses_hold (S : List Str) (step : Nat) :
 
 example : validDict [[0x61, 0x62], [0x62]] = true ∧ (∃ L d, FM.DictOK [[0x61, 0x62], [0x62]] L d) ∧ ([0x61] : Str).all validByte = true :=
   ⟨by decide, ⟨_, _, FM.dictOK_buildDict _ 3⟩, by decide⟩
+
+
+/-- `extract` of ID 0 or of an ID above the number of elements is NULL; the index is not touched. -/
+theorem fmindex_extract_bad_id {S : List Str} {L : List FM.Row} {d : FM.Dict} (hd : FM.DictOK S L d) (id : Nat)
+    (h : id = 0 ∨ id > S.length) : d.extract id = some none := FM.extract_bad_id hd id h
 
 /-- The FM-index models were written against the current text of the C++ functions they mirror. -/
 theorem fm_models_match_source_text :
